@@ -157,7 +157,7 @@ PROPS = {
         "theorems": ["ArgMapper.C01.flow_compat", "ArgMapper.C01.callGraph_edges", "ArgMapper.C01.call_args_flow", "ArgMapper.C01.initSt_storeOK", "ArgMapper.C01.flow_ruleFlow", "ArgMapper.C01.callGraph_store_origin", "ArgMapper.C01.injection_sound_partial", "ArgMapper.C01.counterexample_twin_interfaces", "ArgMapper.C01.newFunc_keysOK", "ArgMapper.C01.callGraph_no_arg_root", "ArgMapper.C01.stdCtx_funcsOK", "ArgMapper.C01.injection_sound"],
         "facts": {"r5SkipSame": "true", "r6NameTest": "true", "publishAfterUpdate": "true", "trackReaching": "true", "takeValuedNamed": "true", "hopCopies": "true", "memoCopy": "true"},
         "rule": "call: at least one function executed, or an unsatisfied error with a converter present.",
-        "runs": {"quick": [fam("call", 600, 0), fam("call", 200, 0, "gens")], "thorough": [fam("call", 100000, 0), fam("call", 20000, 0, "gens")]},
+        "runs": {"quick": [fam("call", 600, 0), fam("call", 200, 0, "gens"), fam("hist", 400, 0), fam("race", 40, 8, "40", bin="harness-race")], "thorough": [fam("call", 100000, 0), fam("call", 20000, 0, "gens"), fam("hist", 30000, 0), fam("race", 600, 8, "50", bin="harness-race")]},
     },
     "C06": {
         "claim": "Theorems (any oracle, behaviour, state): reach_never_out_of_fuel / call_never_out_of_fuel (recursion depth bounded by the number of function vertices), no_elem_or_unknown_panic, malformed_options, counterexample_mutual_cycle_diverges (the unrepaired model diverges on the F3 input), generator_error_reported / generators_transparent / runGens_perm (converter generators: an error on any visited value aborts with an error for every iteration order; otherwise the graph is callGraph of the builder extended by the generated converters). No panic, crash or unbounded recursion on well-formed use. Decided on the model's explicit panic sites and fuel; real stack / reflect behaviour by crash-isolated exploration (worker restarted after a fatal stack overflow).",
@@ -187,15 +187,15 @@ PROPS = {
         "claim": "Theorems (for every graph, oracle, behaviour and fuel): a failing execution is the last execution of the call and its error is what Call returns; a successful call executed no failing function; the target's own error is reported by the accessor. Tied to the code by trace conformance on chains with failing converters at every depth (multi-input, struct-returning, memoised) with error identity checked through provenance ids.",
         "note": "", "theorems": ["ArgMapper.C04.failing_execution_is_last", "ArgMapper.C04.ok_means_no_failure", "ArgMapper.C04.target_error_reported", "ArgMapper.C04.conv_error_verbatim"], "facts": {"r5SkipSame": "true", "r6NameTest": "true", "publishAfterUpdate": "true", "trackReaching": "true", "takeValuedNamed": "true", "hopCopies": "true", "memoCopy": "true"},
         "rule": "call: at least one function executed.",
-        "runs": {"quick": [fam("call", 500, 0, "fail"), fam("call", 200, 0, "general"), fam("call", 150, 0, "gens"), fam("race", 40, 8, "25f", bin="harness-race")],
-                 "thorough": [fam("call", 50000, 0, "fail"), fam("call", 20000, 0, "general"), fam("call", 10000, 0, "gens"), fam("race", 800, 8, "40f", bin="harness-race")]},
+        "runs": {"quick": [fam("call", 500, 0, "fail"), fam("call", 200, 0, "general"), fam("call", 150, 0, "gens"), fam("redef", 300, 0), fam("race", 40, 8, "25f", bin="harness-race")],
+                 "thorough": [fam("call", 50000, 0, "fail"), fam("call", 20000, 0, "general"), fam("call", 10000, 0, "gens"), fam("redef", 20000, 0), fam("race", 800, 8, "40f", bin="harness-race")]},
     },
     "C05": {
         "claim": "Theorems for the subtype-free fragment, every oracle: complete_single (single-input converters, cycles allowed: once callGraph finds every parameter reachable the call ends in success or in a function body's own error) stable (the outcome class does not depend on the oracle) and complete_acyclic (clause (b): any number of inputs per converter, the pruned graph acyclic and every surviving converter with all its requirements in the graph). With the full label language (names, subtypes, interfaces) and every legal oracle: complete_single_legal (single-input converters, arbitrary cycles — true of the repaired walk only: counterexample_single_legal is the pre-repair model refusing a satisfiable call, finding F22) and complete_acyclic_legal. Chaining is complete and the outcome stable on well-behaved converter sets. Tied to the code by trace conformance on acyclic-satisfiable and single-input-cyclic families, 8 repetitions per scenario; completeness is judged against the matching table, with the table-but-not-library matches (gaps G1-G5) listed as known findings.",
         "note": "", "theorems": ["ArgMapper.C05.complete_single", "ArgMapper.C05.stable", "ArgMapper.C05.newFunc_setsWF", "ArgMapper.C05.counterexample_duplicate_named_key", "ArgMapper.C05.counterexample_values_without_struct", "ArgMapper.C05.complete_acyclic", "ArgMapper.C05.complete_single_legal", "ArgMapper.C05.complete_acyclic_legal", "ArgMapper.C05.complete_single_legal_partial_no_r6", "ArgMapper.C05.counterexample_single_legal", "ArgMapper.C05.counterexample_single_legal_repaired", "ArgMapper.C05.complete_single_any_oracle", "ArgMapper.C05.stable_any_oracle", "ArgMapper.C13.ruleFlow_iff_lib", "ArgMapper.C13.gaps_classified"], "facts": {"r5SkipSame": "true", "r6NameTest": "true", "publishAfterUpdate": "true", "trackReaching": "true", "takeValuedNamed": "true", "hopCopies": "true", "memoCopy": "true"},
         "rule": "call: at least one function executed, or an unsatisfied error with a converter present.",
-        "runs": {"quick": [fam("call", 300, 0, "single"), fam("call", 300, 0, "acyclic")],
-                 "thorough": [fam("call", 30000, 0, "single"), fam("call", 30000, 0, "acyclic")]},
+        "runs": {"quick": [fam("call", 300, 0, "single"), fam("call", 300, 0, "acyclic"), fam("call", 150, 0, "gens")],
+                 "thorough": [fam("call", 30000, 0, "single"), fam("call", 30000, 0, "acyclic"), fam("call", 10000, 0, "gens")]},
     },
     "C07": {
         "claim": "Theorems (any legal complete pop order, negative weights allowed): feeder_pred / branch_pred / branch_pred_long (Dijkstra level), affinity_path / named_converter_path / named_converter_path' (the path chosen on the re-weighted reversed copy enters the converter's type-only input from the same-named supplied value; reaches the parameter through the name-using converter), walk_converts_feeder / walk_runs_named_converter (walking such a path executes the converter once, on the same-named value). Name affinity decides between equal candidates. The theorems' premises famA / famB / famB' are decidable and evaluated on the real pruned graph of every scenario (distribution key prem=). Tied to the code by trace conformance on the two documented families (1-6 competing same-typed inputs; type-only vs name-using converter; all forms; shuffled registration order; 10 repetitions).",
